@@ -357,20 +357,21 @@ let next_task = ref 0
 let cur = ref (-1)                       (* thread the burst styles keep stepping *)
 let delayed : (int, unit) Hashtbl.t = Hashtbl.create 8   (* workers held back before their select *)
 let peeked_at_end = ref false
+let loops : (int, int) Hashtbl.t = Hashtbl.create 8    (* rounds of Submit's spin loop per client tid *)
 
-let init_with (fixa : bool) (fixb : bool) (params : string list) : pcfg =
+let init_with (fixa : bool) (fixb : bool) (fixc : bool) (params : string list) : pcfg =
   let iv = Array.of_list (List.map int_of_string params) in
   let g k d = if k < Array.length iv then iv.(k) else d in
   nclients := g 6 3; style := g 7 0; ntasks := g 8 6;
-  shutdown_returned := false; next_task := 0; cur := -1; Hashtbl.reset delayed; peeked_at_end := false;
+  shutdown_returned := false; next_task := 0; cur := -1; Hashtbl.reset delayed; Hashtbl.reset loops; peeked_at_end := false;
   pinit { i_init = z (g 0 1); i_core = z (g 1 1); i_max = z (g 2 1); i_cap = z (g 3 0); i_rn = z (g 4 0);
-          i_rd = z (g 5 1); i_fixa = fixa; i_fixb = fixb; i_base = nn 100 }
+          i_rd = z (g 5 1); i_fixa = fixa; i_fixb = fixb; i_base = nn 100; i_fixc = fixc }
 
-(* optional params 10 and 11 (0/1): the two fix flags - 1 1 (default) = the code as it is now *)
+(* optional params 10, 11 and 12 (0/1): the three fix flags - 1 1 1 (default) = the code as it is now *)
 let init params =
   let get k = (match List.nth_opt params k with Some "0" -> false | _ -> true) in
   fixa_flag := get 9;
-  init_with (get 9) (get 10) params
+  init_with (get 9) (get 10) (get 11) params
 
 (* the client program of one schedule: submits around a Start, then a shutdown of either kind,
    then calls that must fail; occasionally out-of-order lifecycle calls *)
@@ -456,7 +457,7 @@ let candidates rng (c : pcfg) : dev list =
   let r n = Random.State.int rng n in
   (* a submitter that has gone round its loop many times (queue full / state word taken) only spins: step it rarely *)
   let spinning e = (match e with
-      | Mod (PStep (t, _)) -> (match thread c (ni t) with Some th -> is_client (ni t) && ni th.l_task.tk_depth > 5 | None -> false)
+      | Mod (PStep (t, _)) -> (match thread c (ni t) with Some _ -> is_client (ni t) && (try Hashtbl.find loops (ni t) with Not_found -> 0) > 5 | None -> false)
       | _ -> false) in
   let others_all = others in
   let others = (match List.filter (fun e -> not (spinning e)) others with [] -> others | l -> if r 12 = 0 then others else l) in
@@ -554,7 +555,9 @@ let tags (c : pcfg) (e : dev) (c' : pcfg) : string list =
           | ShClose, _ | SnClose, _ -> if nparked c > 0 then ["close-wakes-parked-workers"] else []
           | AlRet, _ -> if (thread c' (ni t) |> function Some th' -> th'.pc = TsInc | None -> false) then [] else
               if zi c.c_sh.s_total >= zi c.c_par.i_max then ["creation-refused-at-maxgo"] else ["creation-refused-by-rate"]
-          | SbIf2, _ -> if not th.l_ok && th.l_err = PENone then ["submit-loops-again"] else []
+          | SbIf2, _ -> if not th.l_ok && th.l_err = PENone then begin
+              Hashtbl.replace loops (ni t) (1 + (try Hashtbl.find loops (ni t) with Not_found -> 0));
+              ["submit-loops-again"] end else []
           | _ -> []))
     | Mod (PFire t) ->
       (match th_of t with
@@ -565,7 +568,7 @@ let tags (c : pcfg) (e : dev) (c' : pcfg) : string list =
     | Mod (PFinish _) -> ["task-finishes"]
     | Peek -> ["peek"]
     | Settle _ -> ["settle"]
-    | Mod (PCall _) -> [] in
+    | Mod (PCall (t, _)) -> Hashtbl.remove loops (ni t); [] in
   base
   @ (if List.length (holders c) >= 1 && (match e with Mod (PStep (t, _)) -> (match th_of t with Some th -> (match th.pc with TsCas | StCas | ShCas | SnCas | SbChkClosing | SbChkStopped -> true | _ -> false) | None -> false) | _ -> false)
      then ["step-of-another-caller-while-state-is-locked"] else [])
